@@ -1,5 +1,5 @@
 #!/usr/bin/env python3
-"""Regenerate the round-4 / round-5 tables of DESIGN.md section 11 from seeded/*/meta.json and
+"""Regenerate the round-4 / round-5 / round-6 tables of DESIGN.md section 11 from seeded/*/meta.json and
 seeded/RESULTS.json (between the markers)."""
 import json, os, re
 res=json.load(open('/verif/seeded/RESULTS.json'))
@@ -31,12 +31,31 @@ One miss led to a genuine defect of /repo (no-check mode in `non_colliding_offse
 
 {table('r5-')}
 
-Two probes of my own (no demonstration programs, not counted): `own-clock-1` (a 30 ms wall-clock
+Sixth round, focus on HISTORY-, STATE- and TIME-DEPENDENT changes and on error / liveness
+behaviour (caches and memos keyed by part of the input, statics, `OnceLock`, `thread_local!`,
+wall-clock budgets, hangs, panics for rare legal inputs, behaviour that changes on the second use
+of an object): 21 more, `/verif/seeded/r6-*`. When first run 13 were caught (one of them,
+`r6-c18-m1`, through an artefact of the harness and one, `r6-c14-m1`, only as a wall-clock hang),
+3 could not be built against the harness (2 because the rand model lacked `SmallRng` /
+`SeedableRng`, 1 because it adds a private field to `KinematicsWithShape`, which no downstream
+user that assembles the struct from its public fields survives) and 5 were missed or observed
+without a replayable confirmation. This round changed the simulator more than any other: the
+process-lifetime state model (statics, once-cells, thread-locals; section 2.1), pool threads
+as slots and work stealing while blocked (section 2.3), history support for C18 and C19, the
+disk's timestamps (section 2.6), the fallback form of a candidate and bounded confirmation
+(section 2.9), the non-termination watchdog.
+
+{table('r6-')}
+
+Probes of my own (no demonstration programs, not counted): `own-hang-1` (a spin loop between
+scheduling points, reported as `t:no-termination` by the watchdog), `own-r6-c11-m3-static` (my
+port of `r6-c11-m3` to a static, caught by C11 after its second phase was made to repeat the
+last request made before the reconfiguration), `own-clock-1` (a 30 ms wall-clock
 budget in `dual_rrt_connect`, caught by C12 clause g through the simulated clock) and `own-fk-1`
 (`Tool::forward_with_joint_poses` moving link 6 to the tool centre point, caught by the placement
 oracle of C10).
 
-Totals over the five rounds: {det} of {tot} seeded changes are caught by the QUICK tier of their
+Totals over the six rounds: {det} of {tot} seeded changes are caught by the QUICK tier of their
 property's check{', ' + ', '.join(thor) + ' only by the thorough tier' if thor else ''}.
 <!-- SEEDED-TABLES-END -->"""
 s=open('/verif/DESIGN.md').read()
